@@ -128,7 +128,9 @@ def feed_species(index, rep):
                 return NotImplemented
 
             it.call_hook = hook
-            res = it.call_function(fn, [grass, feed, rum], {}, obj)
+            from .core import bind_named
+            a_, k_ = bind_named(fn, [("grass_input", grass), ("feed_input", feed), ("is_ruminant", rum)])
+            res = it.call_function(fn, a_, k_, obj)
             return res, grass, feed, obj
 
         try:
@@ -256,23 +258,27 @@ def prio(index, rep):
     if len(fn.args.args) != 4:
         raise AnalysisError(f"feed_animals signature changed: {[a.arg for a in fn.args.args]}")
     # parameters by position: P0 list, P1 ruminants, P2 feed, P3 grass (the caller side is checked below against the same positions)
+    from .core import ref_positions
+    fts = index.func(ANIM, "AnimalSpecies.feed_the_species")
+    s_g, s_f, s_r = ref_positions(fts, ["grass_input", "feed_input", "is_ruminant"])
+    a_l, a_r, a_f, a_g = ref_positions(fn, ["animal_list", "ruminants", "available_feed", "available_grass"], method=False)
     ov = Over(rep, rule, loc(ANIM, fn))
     for dec, ev, env, it in leaves:
         passes = _ev(ev, "pass-begin")
         resets = _ev(ev, "elem-call", "reset_NE_balance")
         feeds = _ev(ev, "elem-call", "feed_the_species")
-        ok = len(passes) == 2 and all(p.name == fn.args.args[0].arg for p in passes) and len(resets) == 2 and len(feeds) == 2 and \
+        ok = len(passes) == 2 and all(p.name == fn.args.args[a_l].arg for p in passes) and len(resets) == 2 and len(feeds) == 2 and \
             max(ev.index(r) for r in resets) < min(ev.index(f) for f in feeds)
         ov.leaf("two passes over the list in its order; balances reset before feeding", ok,
                 "feed_animals does not make one reset pass and then one feeding pass over the list it is given, in order", dec)
         if len(feeds) == 2:
             f1, f2 = feeds
-            okt = len(f1.args) == 3 and _is(f1.args[0], "P3") and _is(f1.args[1], "P2") and \
-                _is(f2.args[0], f"{f1.tag}#0") and _is(f2.args[1], f"{f1.tag}#1")
+            okt = len(f1.args) == 3 and _is(f1.args[s_g], f"P{a_g}") and _is(f1.args[s_f], f"P{a_f}") and \
+                _is(f2.args[s_g], f"{f1.tag}#0") and _is(f2.args[s_f], f"{f1.tag}#1")
             ov.leaf("resources threaded (grass, feed) in, (grass, feed) out", okt,
                     "what one species leaves is not what the next species is offered (grass/feed crossed or not carried over)", dec)
-            flags = [herd.dec_true(dec, "elem in P1"), herd.dec_true(dec, "elem2 in P1")]
-            okr = [f1.args[2], f2.args[2]] == flags
+            flags = [herd.dec_true(dec, f"elem in P{a_r}"), herd.dec_true(dec, f"elem2 in P{a_r}")]
+            okr = [f1.args[s_r], f2.args[s_r]] == flags
             ov.leaf("ruminant flag = membership in the ruminant list", okr, "the ruminant flag passed to feeding is not `animal in ruminants`", dec)
             ret = _ev(ev, "return")
             okret = len(ret) == 1 and isinstance(ret[0].args[0], tuple) and len(ret[0].args[0]) == 2 and \
@@ -290,7 +296,7 @@ def prio(index, rep):
         ok = len(fa) == 1 and len(fa[0].args) == 4
         feed_p = grass_p = None
         if ok:
-            a2, a3 = fa[0].args[2], fa[0].args[3]
+            a2, a3 = fa[0].args[a_f], fa[0].args[a_g]
             ok = isinstance(a2, Path) and isinstance(a3, Path) and a2.idx is not None and a3.idx is not None and a2.parts[-1] == "[]" and a3.parts[-1] == "[]" \
                 and str(a2.idx) == str(a3.idx) == str(it.index_of(Rat.atom("M")))
             if ok:
@@ -317,10 +323,12 @@ def prio(index, rep):
               "net_kcals_gained_per_hour_slaughter_this_month", loc=loc(ANIM, go))
     # the list handed to feed_animals every month is built once, in the sorted dictionary's order, and never reordered
     fa_calls = [c for c in ast.walk(ml) if isinstance(c, ast.Call) and (dotted(c.func) or "").endswith("feed_animals")]
-    lst = norm_src(fa_calls[0].args[0]) if fa_calls and fa_calls[0].args else None
+    from .core import args_by_ref_names as _abn7
+    lst_e = _abn7(fa_calls[0], fn, ["animal_list"], method=False)[0] if fa_calls else None
+    lst = norm_src(lst_e) if lst_e is not None else None
     from .core import Inliner
     inl = Inliner(main)
-    built = inl.src(fa_calls[0].args[0]) if lst else ""
+    built = inl.src(lst_e) if lst else ""
     import re as _re
     okl = bool(_re.fullmatch(r"\[(\w+) for \1 in (.+)\.values\(\)\]|list\((.+)\.values\(\)\)", built))
     rep.check(okl, rule, "all_animals = dict order", f"the list of animals fed is not built from the sorted dictionary's order ({built[:80]})", loc=loc(ANIM, main))
